@@ -66,6 +66,13 @@ def parseInt64 (s : Bytes) : Option Int :=
     if minInt64 ≤ v && v ≤ maxInt64 then some v else none
   else none
 
+/-- a signed decimal integer of any magnitude (the syntax of a RESP integer line) -/
+def parseIntDec (s : Bytes) : Option Int :=
+  match s with
+  | 45 :: r => if allDigits r then some (-(digitsVal r : Int)) else none
+  | 43 :: r => if allDigits r then some (digitsVal r : Int) else none
+  | r => if allDigits r then some (digitsVal r : Int) else none
+
 /-- two's-complement wrap of an integer into the int64 range (Go `int64` arithmetic). -/
 def wrap64 (i : Int) : Int :=
   let m : Int := 18446744073709551616
